@@ -376,6 +376,14 @@ def _call_strategy(idxs):
 
 def run_calls(task, tier, seed, col):
     idxs = [i for i in range(len(RECIPES)) if i % task["nshard"] == task["shard"]]
+    # every recipe once in each non-default registry configuration, with operand units that repeat a dimension where the role has some
+    # (enumerated: which recipe meets which configuration is not left to the random search)
+    for i in idxs:
+        rec = RECIPES[i]
+        for config in ("auto_reduce", "force_ndarray"):
+            uA = [(COMPOUND[r][(i + k) % len(COMPOUND[r])] if config == "auto_reduce" and r in COMPOUND else POOLS[r][(i + k) % len(POOLS[r])]) for k, r in enumerate(rec["roles"])]
+            uB = [POOLS[r][(i + k + 1) % len(POOLS[r])] for k, r in enumerate(rec["roles"])]
+            col.run_case(lambda c: case_call(c, col), {"recipe": rec["name"], "unitsA": uA, "unitsB": uB, "shape": [3], "values": [2.0, 3.0, 5.0, 7.0, 11.0, 13.0, 4.5, 6.5], "nan": 0, "config": config})
     hyp_search(col, _call_strategy(idxs), lambda c: case_call(c, col), max_examples=1200 if tier == "quick" else 12000, seed=seed * 257 + task["shard"], max_buckets=8)
 
 
